@@ -4,6 +4,7 @@
 import Mrm.Spec.Access
 import Mrm.Spec.Frame
 import Mrm.Proofs.ScriptLemmas
+import Mrm.Proofs.ViewsFrom
 
 namespace Mrm
 
@@ -62,7 +63,7 @@ theorem strip_spec (cs : List Char) :
     rw [List.getLast?_reverse] at hc
     exact head?_dropWhile_false _ _ _ hc
 
-theorem storyView_script (s : Xml) (ps : Option Nat) (offs : Option (List (Option String × Nat)))
+theorem storyView_script (s : Xml) (ps : Option Nat) (offs : Option Nat)
     (v : StoryView) (h : storyView s ps offs = .ok v) :
     v.script = storyScript s ∧ v.body = storyBody s := by
   unfold storyView at h
@@ -91,10 +92,10 @@ theorem roStories_script (rc : Xml) (vs : List StoryView) (h : roStories rc = .o
     · split at h
       · cases h
       · constructor
-        · exact mapExcept_map _ (·.script) scriptSpec
-            (fun a v hv => by rw [← script_eq_spec]; exact (storyView_script a _ _ v hv).1) _ _ h
-        · exact mapExcept_map _ (·.body) bodySpec
-            (fun a v hv => by rw [← body_eq_spec]; exact (storyView_script a _ _ v hv).2) _ _ h
+        · exact viewsFrom_map_eq (·.script) scriptSpec
+            (fun a o v hv => by rw [← script_eq_spec]; exact (storyView_script a _ o v hv).1) h
+        · exact viewsFrom_map_eq (·.body) bodySpec
+            (fun a o v hv => by rw [← body_eq_spec]; exact (storyView_script a _ o v hv).2) h
 
 /-- the running order's script / body are the concatenation of its stories', in running order -/
 theorem ro_script_concat (d : Xml) (v : RoView) (h : roView d = .ok v) :
